@@ -17,7 +17,7 @@ import (
 func init() {
 	register(&run.Prop{
 		ID: "C18",
-		Rule: "case = one repetition of the concurrent workload inside a worker process built with the Go race detector (-race): G goroutines (16 or 64) start behind a barrier and each performs a shuffled list of ~34 different API calls (boolean ops, trees, open paths, offsets incl. ClipperOffset objects, rectangle clipping of polygons and lines, Minkowski, trim/simplify/area/point-in-polygon, D variants) on SHARED read-only inputs and DISTINCT engine objects; half of the repetitions switch on the verif yield hook (runtime.Gosched every n-th loop tick) to diversify interleavings. " +
+		Rule: "case = one repetition of the concurrent workload inside a worker process built with the Go race detector (-race): G goroutines (16 or 64) start behind a barrier and each performs a shuffled list of ~42 different API calls (boolean ops, trees, open paths, offsets incl. ClipperOffset objects, rectangle clipping of polygons and lines, Minkowski, trim/simplify/area/point-in-polygon, D variants; each group also once on inputs of 200-400 vertices per path, e.g. Minkowski sweeps of > 1000 quads, so that size-dependent code paths run concurrently too) on read-only inputs SHARED by every third goroutine (3 input sets, goroutine g uses set g mod 3) and DISTINCT engine objects; half of the repetitions switch on the verif yield hook (runtime.Gosched every n-th loop tick) to diversify interleavings. " +
 			"Monitors: (1) the race detector (GORACE halt_on_error=0, reports counted from the log files by the parent; any report is a violation); (2) every concurrent call's output digest must equal the digest of the same call made sequentially before the goroutines start; (3) the shared inputs' digests before and after. " +
 			"Observed and reported: calls, overlapping call pairs (from monotonic timestamps), distinct overlapping API pairs. Non-trivial = a repetition in which >= 100 distinct API pairs overlapped in time; distinct by repetition id.",
 		Assumptions: []string{"the race detector only sees races that actually occur in an explored interleaving; it cannot prove their absence",
@@ -59,6 +59,12 @@ func c18Calls(r *gen.Rng) ([]apiCall, func() string) {
 	nest, _ := gen.Nested(r, 2, 4, 500, true, false)
 	open := gen.Polylines(r, 3, 120, subj)
 	bigS, bigC := gen.BigN(r, 200, 400)
+	bigC0 := Path{{X: 0, Y: 0}, {X: 50, Y: 10}}
+	if len(bigC) > 0 {
+		bigC0 = bigC[0]
+	}
+	bigR := float64(gen.MaxAbs(bigS))
+	bigRect := clip.NewRect64(int64(-bigR/2), int64(-bigR/3), int64(bigR/2), int64(bigR/2))
 	sD, cD := toD(subj, 10), toD(clp, 10)
 	nD := toD(nest, 10)
 	pat := convexPoly(r, 30, 6, true)
@@ -151,6 +157,28 @@ func c18Calls(r *gen.Rng) ([]apiCall, func() string) {
 		{"Ellipse64+StripDuplicates", func() string {
 			return d([]any{clip.Ellipse64(Pt{X: 10, Y: -5}, 40, 25, 0), clip.StripDuplicates(latS[0], true)})
 		}},
+		{"MinkowskiSum64/big", func() string { return d(clip.MinkowskiSum64(pat, bigS[0], true)) }},
+		{"MinkowskiDiff64/big-open", func() string { return d(clip.MinkowskiDiff64(pat, bigC0, false)) }},
+		{"InflatePaths64/big", func() string { return d(clip.InflatePaths64(bigS, bigR/50, clip.Round, clip.Polygon)) }},
+		{"InflatePaths64/big-open", func() string { return d(clip.InflatePaths64(bigS, bigR/80, clip.Miter, clip.SquareET)) }},
+		{"RectClipPaths64/big", func() string { return d(clip.RectClipPaths64(bigRect, bigS)) }},
+		{"RectClipLinesPaths64/big", func() string { return d(clip.RectClipLinesPaths64(bigRect, bigS)) }},
+		{"BooleanOpPolyTree64/big", func() string {
+			t := clip.BooleanOpPolyTree64(clip.Xor, bigS, bigC, clip.EvenOdd)
+			return d(flattenTree(t.PolyPathBase))
+		}},
+		{"Clipper64/big-reexecute", func() string {
+			c := clip.NewClipper64()
+			c.AddPaths(bigS, clip.Subject, false)
+			c.AddPaths(bigC, clip.Clip, false)
+			a, b := Paths{}, Paths{}
+			c.Execute(clip.Union, clip.NonZero, &a)
+			c.Execute(clip.Difference, clip.EvenOdd, &b)
+			t := clip.NewPolyTree64()
+			o := clip.PathsD{}
+			c.ExecutePolyTree64(clip.Intersection, clip.NonZero, t, &o)
+			return d([]any{a, b, flattenTree(t.PolyPathBase)})
+		}},
 		{"ScalePathsDToPaths64", func() string {
 			return d([]any{clip.ScalePathsDToPaths64(sD, 100), clip.ScalePaths64ToPathsD(subj, 0.01), clip.TrimCollinearD(sD[0], 1, false)})
 		}},
@@ -167,8 +195,22 @@ func c18Run(ctx *run.Ctx, id run.CaseID) {
 	if raceEnabled {
 		ctx.Count("race_detector_enabled", 1)
 	}
-	r := gen.ForCase(id.Family, id.Index/4, id.Stream) // 4 repetitions share one input set
-	calls, inputsDigest := c18Calls(r)
+	// K input sets (4 repetitions share them); goroutine g works on set g mod K, so that concurrent calls of one API
+	// mostly run on DIFFERENT data and a shared buffer shows up as a wrong result, not only as a race report
+	const K = 3
+	var sets [K][]apiCall
+	var inDigests [K]func() string
+	for k := 0; k < K; k++ {
+		sets[k], inDigests[k] = c18Calls(gen.ForCase(fmt.Sprintf("%s#set%d", id.Family, k), id.Index/4, id.Stream))
+	}
+	calls := sets[0]
+	inputsDigest := func() string {
+		s := ""
+		for k := 0; k < K; k++ {
+			s += inDigests[k]()
+		}
+		return s
+	}
 	rr := gen.ForCase("c18-sched", id.Index, id.Stream)
 	G := 16
 	if id.Index%2 == 1 {
@@ -181,10 +223,13 @@ func c18Run(ctx *run.Ctx, id run.CaseID) {
 	digest := fmt.Sprintf("rep-%d-%d", id.Index, id.Stream)
 	before := inputsDigest()
 	// sequential reference
-	want := make([]string, len(calls))
+	var want [K][]string
 	ok := ctx.Guard(digest, "sequential", nil, func() {
-		for i, c := range calls {
-			want[i] = c.f()
+		for k := 0; k < K; k++ {
+			want[k] = make([]string, len(calls))
+			for i, c := range sets[k] {
+				want[k][i] = c.f()
+			}
 		}
 	})
 	if !ok {
@@ -217,10 +262,10 @@ func c18Run(ctx *run.Ctx, id run.CaseID) {
 			<-start
 			for _, i := range orders[g] {
 				s := time.Since(t0).Nanoseconds()
-				got := calls[i].f()
+				got := sets[g%K][i].f()
 				e := time.Since(t0).Nanoseconds()
 				recs[g] = append(recs[g], callRec{i, s, e})
-				if got != want[i] {
+				if got != want[g%K][i] {
 					mism[g] = append(mism[g], calls[i].name)
 				}
 			}
